@@ -8,6 +8,7 @@ from .._verif import emit as _verif_emit
 from ..linalg import total_variance
 from ..preprocessing import PCA
 from ..utils.data_types import DataArray, DataObject
+from ..utils.sanity_checks import sanity_check_n_modes
 from ..utils.xarray_utils import argsort_dask
 from .base_model_single_set import BaseModelSingleSet
 
@@ -120,6 +121,13 @@ class POP(BaseModelSingleSet):
         solver_kwargs: dict = {},
         **kwargs,
     ):
+        # POP does not run a Decomposer, which validates these parameters elsewhere
+        sanity_check_n_modes(n_modes)
+        if solver not in ("auto", "full", "randomized"):
+            raise ValueError(
+                f"Unrecognized solver '{solver}'. "
+                "Valid options are 'auto', 'full', and 'randomized'."
+            )
         super().__init__(
             n_modes=n_modes,
             center=center,
